@@ -79,8 +79,20 @@ func (ef *enumField) GetValue() (EnumOption, error) {
 	return nil, fmt.Errorf("enum value %d not found", numVal)
 }
 
+// enumOptionByName looks the name up as written before trying it with the enum's
+// prefix removed: an option whose own name starts with the prefix (FOO_FOO_BAR in
+// an enum prefixed FOO_ is called FOO_BAR) must be reachable by that name.
+func enumOptionByName(schema *j5schema.EnumSchema, name string) *j5schema.EnumOption {
+	for _, opt := range schema.Options {
+		if opt.Name() == name {
+			return opt
+		}
+	}
+	return schema.OptionByName(name)
+}
+
 func (ef *enumField) SetFromString(val string) error {
-	option := ef.schema.Schema().OptionByName(val)
+	option := enumOptionByName(ef.schema.Schema(), val)
 	if option != nil {
 		return ef.value.setValue(protoreflect.ValueOfEnum(protoreflect.EnumNumber(option.Number())))
 	}
@@ -134,7 +146,7 @@ func (field *arrayOfEnumField) AsArrayOfScalar() (ArrayOfScalarField, bool) {
 }
 
 func (field *arrayOfEnumField) AppendEnumFromString(name string) (int, error) {
-	option := field.itemSchema.OptionByName(name)
+	option := enumOptionByName(field.itemSchema, name)
 	if option == nil {
 		return -1, fmt.Errorf("enum value %s not found", name)
 	}
@@ -176,7 +188,7 @@ func (field *mapOfEnumField) AsMap() (MapField, bool) {
 }
 
 func (field *mapOfEnumField) SetEnum(key string, value string) error {
-	option := field.itemSchema.OptionByName(value)
+	option := enumOptionByName(field.itemSchema, value)
 	if option == nil {
 		return fmt.Errorf("enum value %s not found", value)
 	}
